@@ -228,6 +228,42 @@ Definition build_with_sink (inp : input) (total k : Z) : res dict :=
 
 End WithFacts.
 
+(* ---------------- repeated compile calls on one builder ---------------- *)
+
+(* DictBuilder::compile takes &mut self and may be called again: after a success, or after a sink failure with another sink.
+   What carries over between calls is the builder: the loaded input and whether ConnBuffer still holds the matrix bytes.
+   `keeps_matrix` is the fact BuildGuards.conn_write_keeps_matrix: ConnBuffer::write_to writes `&self.matrix` and leaves it
+   where it is (false: it moves the matrix out before writing it). *)
+Record builder := mkBuilder { bl_inp : input; bl_matrix_held : bool }.
+Definition fresh_builder (inp : input) : builder := mkBuilder inp true.
+
+Section Session.
+Variable F : bfacts.
+Variable keeps_matrix : bool.
+
+(* one compile call into a sink accepting k bytes; `total` = bytes of a complete dictionary, `moff` = offset of its first
+   matrix byte.  A success carries the dictionary and whether the matrix bytes announced by its dimensions were written. *)
+Definition compile_step (b : builder) (total moff k : Z) : builder * res (dict * bool) :=
+  match build_with F (bl_inp b) with
+  | Ok d =>
+      let mbytes := 2 * (d_nl d * d_nr d) in
+      let complete := bl_matrix_held b || d_user d || (mbytes =? 0) in
+      let written := if complete then total else total - mbytes in
+      let b' := if keeps_matrix || d_user d then b
+                else if moff <=? k then mkBuilder (bl_inp b) false else b in
+      (b', if k <? written then Err else Ok (d, complete))
+  | Err => (b, Err)
+  | Panic => (b, Panic)
+  end.
+
+Fixpoint run_session (b : builder) (total moff : Z) (ks : list Z) : list (res (dict * bool)) :=
+  match ks with
+  | [] => []
+  | k :: t => let br := compile_step b total moff k in snd br :: run_session (fst br) total moff t
+  end.
+
+End Session.
+
 (* ---------------- specification side ---------------- *)
 
 Definition ref_exists (d : dict) (w : wid) : bool :=
@@ -288,6 +324,7 @@ Definition gen_bfacts : bfacts :=
            ConnIndex.matrix_index ConnIndex.cost_arg_left ConnIndex.cost_arg_right.
 
 Definition build := build_with gen_bfacts.
+Definition session := run_session gen_bfacts BuildGuards.conn_write_keeps_matrix.
 Definition build_sink := build_with_sink gen_bfacts.
 
 (* panic sites of the builder files (Generated/BuildGuards.build_panic_sites) and why each cannot fire on any input;
@@ -328,17 +365,26 @@ Definition cell_of_stores (nl : Z) (stores : list (Z * Z)) (l r : Z) : Z :=
 (* impl_status: status of read_conn; read_lexicon; resolve; compile.  impl_dims / impl_cells: dimensions and cells read back
    from the loaded dictionary (only when it compiled and loaded).  loads_and_analyses: loading + analysing the probe texts
    in modes A/B/C raised no failure *)
-Definition check_build (inp : input) (impl_status : status) (impl_dims : Z * Z) (impl_cells : list (Z * Z * Z))
-           (loads_and_analyses : bool) : bool :=
-  match build inp with
-  | Ok d =>
+Definition check_build (inp : input) (impl_status second_status : status) (second_same : bool)
+           (impl_dims : Z * Z) (impl_cells : list (Z * Z * Z)) (loads_and_analyses : bool) : bool :=
+  (* second_status / second_same: a second compile call on the same builder, and whether status and bytes equal the first *)
+  match session (fresh_builder inp) 0 0 [0; 0] with
+  | [Ok (d, c1); r2] =>
       status_eqb impl_status SOk
       && (if d_user d then true else (fst impl_dims =? d_nl d) && (snd impl_dims =? d_nr d))
       && (if d_user d then true else forallb (fun c => let '(l, r, v) := c in v =? cell_of_stores (d_nl d) (d_stores d) l r) impl_cells)
-      && dict_valid d && stores_in_range d
+      && match r2 with
+         | Ok (_, c2) => status_eqb second_status SOk && Bool.eqb second_same c2
+         | Err => status_eqb second_status SErr
+         | Panic => false
+         end
+      (* property predicate *)
+      && dict_valid d && stores_in_range d && c1
       && loads_and_analyses
-  | Err => status_eqb impl_status SErr
-  | Panic => false
+      && second_same
+  | [Err; r2] => status_eqb impl_status SErr && status_eqb second_status SErr && second_same
+                 && match r2 with Err => true | _ => false end
+  | _ => false
   end.
 
 (* fault enumeration: the sink accepted k of the `total` bytes *)
@@ -351,3 +397,25 @@ Definition check_sink (inp : input) (total k : Z) (impl_status : status) : bool 
 
 Definition check_sink_all (inp : input) (total : Z) (results : list (Z * status)) : bool :=
   forallb (fun ks => check_sink inp total (fst ks) (snd ks)) results.
+
+(* fault enumeration with a retry: first compile into a sink accepting k bytes, then the same builder compiles again into a
+   sink that accepts everything; `same`: the retry's bytes equal those of a fresh build of the same input *)
+Definition check_retry (inp : input) (total moff : Z) (row : Z * status * status * bool) : bool :=
+  let '(k, first, retry, same) := row in
+  match session (fresh_builder inp) total moff [k; total] with
+  | [r1; r2] =>
+      match r1 with
+      | Ok _ => status_eqb first SOk && (total <=? k)
+      | Err => status_eqb first SErr
+      | Panic => false
+      end
+      && match r2 with
+         | Ok (_, c) => status_eqb retry SOk && Bool.eqb same c && same   (* success of the retry must be a complete dictionary *)
+         | Err => status_eqb retry SErr
+         | Panic => false
+         end
+  | _ => false
+  end.
+
+Definition check_retry_all (inp : input) (total moff : Z) (rows : list (Z * status * status * bool)) : bool :=
+  forallb (check_retry inp total moff) rows.
